@@ -10,6 +10,12 @@ def key_of(case, clause):
     return {'kind': c['kind'], 'rel': c['rel'], 'tod': c['tod'], 'text': c['text'], 'ref': c['ref'], 'clause': clause.split(':')[0]}
 
 
+def _post(work, V, cases, obs):
+    from .. import mechbind
+    info = mechbind.generate_dates(work, V)
+    return {'mech_model_checks': info, 'states': sum(m['distinct_states'] for m in info), 'transitions': sum(m['distinct_states'] for m in info)}
+
+
 def run(tier):
     return flow.run_standard(
         PROP, tier, gens=[{'module': 'Gen_OpenDate', 'cfg': 'Gen_OpenDate_%s.cfg' % tier}],
@@ -17,7 +23,7 @@ def run(tier):
         rule='cases = terminal states of Gen_OpenDate (%s): (month, day) x layouts x reference days (the day before / itself / after in leap and non-leap years, '
              'year ends, leap-day neighbourhood) x time of day; seven weekday names x 14 consecutive reference days x time of day; oracle = bounded search on day '
              'ordinals in OpenDate.tla; exactly two values in the order past, future; verdict by TLC (Trace_DT)' % tier,
-        assumptions=d.ASSUME, exhaustive=True)
+        assumptions=d.ASSUME, exhaustive=True, post=_post)
 
 
 def replay(path):
